@@ -1,5 +1,7 @@
 import QuiverModel.Core.Types.Codec
 import QuiverModel.Core.Soundness.Unify
+import QuiverModel.Core.Soundness.FieldAccess
+import QuiverModel.Core.Soundness.Sequence
 /-
 qm_c01 — driver for the C01 guards model and the result-inhabitation oracle.
 
@@ -17,6 +19,10 @@ Requests (one S-expression list per line; see Core/Types/Codec.lean for `<type>`
   (compat <arg id> <param id>)                `is_compatible`                  → true | false | fuel-out
   (hasvars <id>)                              `contains_variables`             → true | false | fuel-out
   (inh <type id> <value>)                     does the value inhabit the type? → true | false | fuel-out
+  (seq <0|1>…)                                nil-ability of a `,`-sequence from the own nil-ability
+                                              of its chains (`compile_sequence`)  → nil | no-nil
+  (field <type id> <name>)                    `get_field_by_name`              → ok <index> <result type id> (<field type id>…) | non-tuple | not-found | fuel-out
+                                              (result type id = `union_type_ids` of the field types on the current table)
 Bindings are printed sorted by (interned) name. Everything else answers `bad-request`.
 -/
 open QM QM.Types QM.Soundness
@@ -122,6 +128,21 @@ def c01Step (s : C01State) (req : List Sx) : C01State × String :=
     match t.asNat with
     | some t => (s, renderOptBool (containsVariables s.table (guardFuel s.table) t))
     | none => (s, "bad-request")
+  | [.list (.atom "seq" :: flags)] =>
+    match listMapM (fun x => match x with | Sx.atom "1" => some true | Sx.atom "0" => some false | _ => none) flags with
+    | some own => (s, if seqNilable .accumulated own then "nil" else "no-nil")
+    | none => (s, "bad-request")
+  | [.list [.atom "field", t, n]] =>
+    match t.asNat, n.asNat with
+    | some t, some n =>
+      match getFieldByName s.table (guardFuel s.table) t n with
+      | .ok idx tys =>
+        let rid := (unionIds s.table tys).2
+        (s, s!"ok {idx} {rid} (" ++ " ".intercalate (tys.map toString) ++ ")")
+      | .nonTuple => (s, "non-tuple")
+      | .notFound => (s, "not-found")
+      | .fuelOut => (s, "fuel-out")
+    | _, _ => (s, "bad-request")
   | [.list [.atom "inh", t, v]] =>
     match t.asNat, V.ofSx v with
     | some t, some v => (s, inhAnswer s.table t v)
